@@ -27,9 +27,12 @@ REQUIRED = ["mixed_denominators", "skipped_measure", "player0_absent", "two_play
 
 
 def anchors():
-    from simfile.notes import NoteData
+    from ..core import pick
 
-    return {"NoteData.from_notes": NoteData.from_notes, "NoteData.__iter__": NoteData.__iter__}
+    return pick(
+        "simfile.notes:NoteData.from_notes",
+        "simfile.notes:NoteData.__iter__",
+    )
 
 
 def cases(ctx):
